@@ -4,7 +4,8 @@ a temporary variable). Every listed check must stay quiet (exit 0, no VIOLATION)
 usage: neutralmatrix.py --repo <scratch copy of /repo> [--verif DIR]"""
 import argparse, json, os, subprocess, sys, time
 CHECKS = {"N1-udp-reorder": ["C06", "C05", "C19"], "N2-ethernet-rename-local": ["C06", "C05", "C19"], "N3-ip4-extra-early-return": ["C05", "C19"],
-          "N4-reassembly-rename-local": ["C11", "C09"], "N5-checksum-comment-and-temp": ["C08"], "N6-writer-temp-var": ["C18"]}
+          "N4-reassembly-rename-local": ["C11", "C09"], "N5-checksum-comment-and-temp": ["C08"], "N6-writer-temp-var": ["C18"],
+          "N7-gre-temp-var": ["C07"], "N8-dns-rename-local": ["C19"], "N9-packet-temp-var": ["C03"]}
 def sh(c, cwd=None):
     p = subprocess.run(c, shell=True, cwd=cwd, stdout=subprocess.PIPE, stderr=subprocess.STDOUT, text=True); return p.returncode, p.stdout
 ap = argparse.ArgumentParser(); ap.add_argument("--repo", required=True); ap.add_argument("--verif", default=os.getcwd()); a = ap.parse_args()
